@@ -224,7 +224,7 @@ func orNull(s string) string {
 }
 
 var knownWhat = map[string]string{
-	"bigint-inferred-as-string":    "math/big.Int marshals as a JSON number but its inferred schema is type string (pinned by TestFor)",
+	"bigint-inferred-as-string":      "math/big.Int marshals as a JSON number but its inferred schema is type string (pinned by TestFor)",
 	"struct-fields-by-go-visibility": "For enumerates struct fields by Go promotion rules (reflect.VisibleFields), encoding/json by JSON-name dominance: two fields with one JSON name at one level are dropped by encoding/json but required by the schema; a field hidden by Go name but with a different JSON name is emitted by encoding/json but absent from the schema",
 }
 
